@@ -237,6 +237,26 @@ def rough(seed):
     return es, vs, truth
 
 
+class RimEdge(BaseEdge):
+    """User-defined edge whose error has a DOMAIN: sqrt(R^2 - d^2), d = distance of the two positions.  At d = R it is 0; a hair further out
+    it is NaN.  (numerical differentiation then yields NaN columns -- and must still put the pose back)"""
+
+    def calc_error(self):
+        d = np.linalg.norm(np.array(self.vertices[0].pose.position) - np.array(self.vertices[1].pose.position))
+        with np.errstate(invalid='ignore'):
+            return np.array([np.sqrt(self.estimate ** 2 - d ** 2)])
+
+    def is_valid(self):
+        return self._is_valid() and len(self.vertices) == 2
+
+
+def rim(seed):
+    es, vs, truth = make('SE2', seed, fixed=(2,))
+    d = float(np.linalg.norm(np.array(vs[0].pose.position) - np.array(vs[3].pose.position)))
+    es.append(RimEdge([vs[0].id, vs[3].id], np.array([[2.0]]), d))          # exactly on the rim of its domain
+    return es, vs, truth
+
+
 def negated(seed):
     """SE(3) graph in which every other measurement, vertex and offset quaternion is stored with a NEGATIVE scalar part (the same rotations)."""
     es, vs, truth = make('SE3', seed)
@@ -252,6 +272,7 @@ def negated(seed):
 
 
 TEMPLATES = {
+    'se2rim': rim,
     'se3neg': negated,
     'se3rough': rough,
     'se2desc': lambda s: make('SE2', s, ids=lambda j: 100 - 7 * j),                    # the first listed vertex does NOT carry the smallest id
